@@ -1189,4 +1189,152 @@ Section Opt.
       unfold cx at 1. rewrite (callx_mono ext _ _ _ _ _ _ _ C1). xstep.
       rewrite chk_I32 by lia. xstep. replace (Z.of_nat j + 1) with (Z.of_nat (S j)) by lia. apply (Hstep m1 h1 R1 F1).
   Qed.
+  (* ------------------------------------------------------------------ lbuf_opt as a whole *)
+  Lemma bufarg_keep (m m' : mem) bl bh v buf : bufarg m bl bh v buf ->
+    (forall bb o, v = VPtr bb o -> nth_error m' bb = nth_error m bb) -> bufarg m' bl bh v buf.
+  Proof.
+    destruct buf as [t|]; [|auto]. intros (bb & s & o & -> & Hs & Hn & Ho & Hm & -> & N1 & N2) K.
+    exists bb, s, o. repeat split; try assumption. unfold str_at in *. rewrite (K bb _ eq_refl). exact Hs.
+  Qed.
+  Definition lo_final (lb : lbuf) (buf : option (list N)) (p nd : nat) : lopt :=
+    {| pos := p; n_ins := linecount buf; n_del := nd; del := if Nat.eqb nd 0 then None else Some (lbuf_cp lb p (p + nd)); ins := buf; seq := useq lb |}.
+  Lemma lbuf_opt_push lb buf p nd : (0 < hist_sz lb)%nat ->
+    lbuf_opt lb buf p nd = push (lbT lb (if Nat.eqb (hist_u lb) (hist_sz lb) then hist_sz lb + hist_sz lb else hist_sz lb)%nat) (lo_final lb buf p nd).
+  Proof.
+    intro H. unfold lbuf_opt, push, lbT, lo_final. cbn [ln hist hist_u hist_sz useq useq_zero useq_last].
+    replace (Nat.eqb (hist_sz lb) 0) with false by (symmetry; apply Nat.eqb_neq; lia). reflexivity.
+  Qed.
+
+  Theorem tr_lbuf_opt (m : mem) bl (blk : block) bh (hblk : block) lb (bufv : val) buf p nd :
+    cp_oracle bl -> urep T m bl blk bh hblk lb -> bufarg m bl bh bufv buf ->
+    (forall bb o, bufv = VPtr bb o -> ~ In bb (log_blocks hblk 0 (length (hist lb)))) ->
+    i31 (p + nd) -> Z.of_nat (hist_sz lb) * 2 <= 2147483647 ->
+    (length (hist lb) - hist_u lb < fuel)%nat -> (linecount buf < fuel)%nat -> (28 < fuel)%nat ->
+    exists (m' : mem) (blk' : block) bh' (hblk' : block),
+      callx ext cprog fuel (S (S (S (S d)))) F_lbuf_opt [VPtr bl 0; bufv; VInt (Z.of_nat p); VInt (Z.of_nat nd)] m = Ok (VUndef, m') /\
+      urep T m' bl blk' bh' hblk' (lbuf_opt lb buf p nd) /\
+      (length m <= length m')%nat /\
+      (forall b, (b < length m)%nat -> ~ In b (owned bl bh hblk (length (hist lb))) -> nth_error m' b = nth_error m b) /\
+      (forall b, In b (log_blocks hblk (hist_u lb) (length (hist lb) - hist_u lb)) -> nth_error m' b = Some []) /\
+      (bh' = bh \/ ((length m <= bh')%nat /\ nth_error m' bh = Some [])).
+  Proof.
+    intros HC R Hbuf Hnb Hpn Hsz2 Hf1 Hf2 Hf3.
+    pose proof R as [Hb L I Cn Rn Cq Ch Csz Cnn Cu Cz Cl Rg Hh Hl He Ho Ht]. destruct Rg as (Rq & (Ru & Rs) & Rz & Rsz).
+    set (u := hist_u lb) in *. set (n := length (hist lb)) in *. set (sz := hist_sz lb) in *.
+    set (D := log_blocks hblk u (n - u)).
+    assert (Hbl : (bl < length m)%nat) by (apply nth_error_Some; congruence).
+    assert (Hbh : (bh < length m)%nat) by (apply nth_error_Some; congruence).
+    assert (Nhl : bh <> bl) by (intro X; subst; unfold owned in Ho; inversion Ho as [|? ? Hn _]; apply Hn; left; reflexivity).
+    (* 1: the redo branch *)
+    destruct (opt_drop_ok m bl blk bh hblk lb bufv (VInt (Z.of_nat p)) (VInt (Z.of_nat nd)) VUndef VUndef VUndef VUndef R Hf1) as (C1 & ND & LD & NblD & NbhD).
+    fold u n D in C1, ND, LD, NblD, NbhD. set (m1 := free_blocks D m) in *.
+    assert (Lm1 : length m1 = length m) by (apply free_blocks_length; exact LD).
+    assert (Hb1 : nth_error m1 bl = Some blk) by (unfold m1; rewrite free_blocks_other by assumption; exact Hb).
+    assert (Hh1 : nth_error m1 bh = Some hblk) by (unfold m1; rewrite free_blocks_other by assumption; exact Hh).
+    (* 2: hist_n = hist_u; growth *)
+    destruct (opt_setn_grow_ok m1 bl blk bh hblk u n sz bufv (VInt (Z.of_nat p)) (VInt (Z.of_nat nd)) VUndef (VInt (Z.of_nat n)) VUndef VUndef
+                Hb1 L Nhl Hh1 Hl Rz ltac:(lia) Hsz2 Ch Csz Cnn Cu)
+      as (mG & blkG & bhG & hblkG & v6 & v7 & C2 & C3 & HbG & LG & EG & G69 & G70 & G71 & HhG & LhG & HcG & HbhG & LmG & HkG & HfreeG).
+    set (sz' := if Nat.eqb u sz then (sz + sz)%nat else sz) in *.
+    assert (Hsz' : (u <= sz')%nat /\ (0 < sz')%nat /\ i31 sz' /\ (u < sz')%nat).
+    { unfold sz', i31. destruct (Nat.eqb_spec u sz); repeat split; lia. }
+    destruct Hsz' as (Hus' & Hz' & Hi' & Hroom).
+    assert (RT : urep T mG bl blkG bhG hblkG (lbT lb sz')).
+    { apply (urep_trunc T m mG bl blk blkG bh bhG hblk hblkG lb sz' TF R); fold u n; try assumption.
+      - intros j Hj. rewrite EG by (unfold L_hist, L_hist_sz, L_hist_n; lia). apply I. exact Hj.
+      - intros j _ J1 J2 J3. apply EG; assumption.
+      - destruct HbhG as [->|X]; [left; reflexivity|right; lia].
+      - lia.
+      - intros b Hb0 N1 N2 N3. rewrite HkG by (try lia; assumption). unfold m1. apply free_blocks_other; assumption. }
+    assert (HbufG : bufarg mG bl bhG bufv buf).
+    { destruct buf as [t|]; [|exact Hbuf]. destruct Hbuf as (bb & s & o & Ev & Hs & Hn & Ho' & Hm & Et & N1 & N2).
+      assert (B1 : (bb < length m)%nat) by (apply nth_error_Some; unfold str_at in Hs; congruence).
+      exists bb, s, o. repeat split; try assumption.
+      - unfold str_at in *. rewrite HkG by (try lia; assumption). unfold m1. rewrite free_blocks_other; [exact Hs|exact LD|].
+        intro X. apply (Hnb bb _ Ev). fold n. rewrite (log_blocks_split hblk u n Ru). apply in_or_app. right. exact X.
+      - destruct HbhG as [->|Y]; [exact N2|lia]. }
+    (* 3: the record *)
+    assert (HunT : hist_u (lbT lb sz') = length (hist (lbT lb sz'))) by (cbn [lbT hist hist_u]; rewrite firstn_length; fold u n; lia).
+    assert (LhT : length (hist (lbT lb sz')) = u) by (cbn [lbT hist]; rewrite firstn_length; fold u n; lia).
+    assert (HroomT : (length (hist (lbT lb sz')) < hist_sz (lbT lb sz'))%nat) by (rewrite LhT; cbn [lbT hist_sz]; exact Hroom).
+    assert (Hp : i31 p /\ i31 nd) by (unfold i31 in *; lia). destruct Hp as (Hp & Hnd).
+    assert (HlenG : (9 * u + 9 <= length hblkG)%nat) by (rewrite LhG; lia).
+    set (restF := SSeq sF (SSeq sG (SSeq sH (SSeq sI (SSeq sJ sK))))).
+    destruct (opt_init_ok mG bl blkG bhG hblkG (lbT lb sz') bufv p nd VUndef (VInt (Z.of_nat n)) v6 v7 restF RT HunT HroomT Hp Hnd) as (C4 & R4).
+    rewrite LhT in C4, R4.
+    set (blkE := upd (upd blkG L_hist_n (VInt (Z.of_nat (S u)))) L_hist_u (VInt (Z.of_nat (S u)))) in *.
+    set (mE := upd (upd mG bhG (R9 hblkG u [VInt 0; VInt 0; VInt (Z.of_nat p); VInt 0; VInt (Z.of_nat nd); VInt 0; VInt 0; VInt 0; VInt 0])) bl blkE) in *.
+    assert (HbhGl : (bhG < length mG)%nat) by (apply nth_error_Some; congruence).
+    assert (HblG : (bl < length mG)%nat) by (apply nth_error_Some; congruence).
+    assert (NhlG : bhG <> bl) by (intro X; subst; pose proof (u_own _ _ _ _ _ _ _ RT) as X; unfold owned in X; inversion X as [|? ? Hn _]; apply Hn; left; reflexivity).
+    assert (LmE : length mE = length mG).
+    { unfold mE. rewrite (upd_length _ bl) by (rewrite upd_length by exact HbhGl; exact HblG). apply upd_length. exact HbhGl. }
+    assert (KE : forall b, b <> bl -> b <> bhG -> nth_error mE b = nth_error mG b).
+    { intros b N1 N2. unfold mE. rewrite mem_upd_other by (rewrite ?upd_length by exact HbhGl; assumption). apply mem_upd_other; assumption. }
+    assert (HbufE : bufarg mE bl bhG bufv buf).
+    { apply (bufarg_frame mG mE bl bhG bufv buf HbufG). intros b _ N1 N2. apply KE; assumption. }
+    (* del *)
+    assert (HlenT : (9 * length (hist (lbT lb sz')) + 9 <= length hblkG)%nat) by (rewrite LhT; exact HlenG).
+    pose proof (opt_del_ok mE bl blkE bhG hblkG (lbT lb sz') (lo_init p nd) bufv p nd (VInt 0) (VInt (Z.of_nat p)) (VInt 0) (VInt (Z.of_nat nd)) (VInt 0) (VInt 0) (VInt 0) (VInt 0)
+                  (VInt (Z.of_nat n)) v6 v7 (SSeq sG (SSeq sH (SSeq sI (SSeq sJ sK)))) HC) as X5. cbv zeta in X5. rewrite LhT in X5.
+    destruct (X5 R4 HlenG Hpn) as (m5 & c1 & C5 & R5 & F5). clear X5.
+    change (lbuf_cp (lbT lb sz') p (p + nd)) with (lbuf_cp lb p (p + nd)) in R5.
+    set (lo5 := set_del (lo_init p nd) (if Nat.eqb nd 0 then None else Some (lbuf_cp lb p (p + nd)))) in *.
+    assert (Hbuf5 : bufarg m5 bl bhG bufv buf).
+    { apply (bufarg_keep mE m5 bl bhG bufv buf HbufE). intros bb o Ev. destruct F5 as (_ & F5 & _).
+      destruct buf as [t|]; [|cbn in HbufE; congruence]. destruct HbufE as (bb' & s & o' & Ev' & Hs & _ & _ & _ & _ & N1 & N2).
+      rewrite Ev in Ev'. injection Ev' as -> _. apply F5; try assumption; [apply nth_error_Some; unfold str_at in Hs; congruence|].
+      rewrite ent_blocks_R9 by exact HlenG. cbn [ptr_block app]. intros []. }
+    (* n_ins *)
+    pose proof (opt_nins_ok m5 bl blkE bhG hblkG (lbT lb sz') lo5 bufv buf (VInt (Z.of_nat p)) (VInt (Z.of_nat nd)) (VInt 0) c1 (VInt (Z.of_nat p)) (VInt 0)
+                  (VInt (Z.of_nat nd)) (VInt 0) (VInt 0) (VInt 0) (VInt 0) (VInt (Z.of_nat n)) v6 v7 (SSeq sH (SSeq sI (SSeq sJ sK)))) as X6.
+    cbv zeta in X6. rewrite LhT in X6. destruct (X6 R5 HlenG Hbuf5 Hf2) as (C6 & R6 & F6). clear X6.
+    set (m6 := upd m5 bhG (R9 hblkG u [VInt 0; c1; VInt (Z.of_nat p); VInt (Z.of_nat (linecount buf)); VInt (Z.of_nat nd); VInt 0; VInt 0; VInt 0; VInt 0])) in *.
+    assert (Hbh5 : (bhG < length m5)%nat) by (apply nth_error_Some; rewrite (u_hblk _ _ _ _ _ _ _ R5); discriminate).
+    assert (Hbuf6 : bufarg m6 bl bhG bufv buf).
+    { apply (bufarg_frame m5 m6 bl bhG bufv buf Hbuf5). intros b _ _ N2. unfold m6. apply mem_upd_other; assumption. }
+    (* ins *)
+    pose proof (opt_ins_ok m6 bl blkE bhG hblkG (lbT lb sz') (set_nins lo5 (linecount buf)) bufv buf (VInt (Z.of_nat p)) (VInt (Z.of_nat nd)) c1 (VInt (Z.of_nat p))
+                  (VInt (Z.of_nat (linecount buf))) (VInt (Z.of_nat nd)) (VInt 0) (VInt 0) (VInt 0) (VInt 0) (VInt (Z.of_nat n)) v6 v7 (SSeq sI (SSeq sJ sK))) as X7.
+    cbv zeta in X7. rewrite LhT in X7. destruct (X7 R6 HlenG Hbuf6) as (m7 & c0 & C7 & R7 & F7). clear X7.
+    (* seq *)
+    pose proof (opt_seq_ok m7 bl blkE bhG hblkG (lbT lb sz') (set_ins (set_nins lo5 (linecount buf)) buf) bufv (VInt (Z.of_nat p)) (VInt (Z.of_nat nd)) c0 c1 (VInt (Z.of_nat p))
+                  (VInt (Z.of_nat (linecount buf))) (VInt (Z.of_nat nd)) (VInt 0) (VInt 0) (VInt 0) (VInt 0) (VInt (Z.of_nat n)) v6 v7 (SSeq sJ sK)) as X8.
+    cbv zeta in X8. rewrite LhT in X8. destruct (X8 R7 HlenG) as (C8 & R8 & F8). clear X8. cbn [lbT useq] in C8, R8, F8.
+    set (m8 := upd m7 bhG (R9 hblkG u [c0; c1; VInt (Z.of_nat p); VInt (Z.of_nat (linecount buf)); VInt (Z.of_nat nd); VInt 0; VInt (useq lb); VInt 0; VInt 0])) in *.
+    (* savepos *)
+    pose proof (opt_savepos_ok m8 bl blkE bhG hblkG (lbT lb sz') (set_seq (set_ins (set_nins lo5 (linecount buf)) buf) (useq lb)) bufv (VInt (Z.of_nat p)) (VInt (Z.of_nat nd)) c0 c1
+                  (VInt (Z.of_nat p)) (VInt (Z.of_nat (linecount buf))) (VInt (Z.of_nat nd)) (VInt 0) (VInt (useq lb)) (VInt 0) (VInt 0) (VInt (Z.of_nat n)) v6 v7 sK) as X9.
+    cbv zeta in X9. rewrite LhT in X9. destruct (X9 R8 HlenG) as (m9 & blk9 & c5 & C9 & R9' & F9). clear X9.
+    (* the marks *)
+    assert (Elo : set_seq (set_ins (set_nins lo5 (linecount buf)) buf) (useq lb) = lo_final lb buf p nd) by reflexivity.
+    rewrite Elo in R9'.
+    pose proof (opt_marks_loop_ok bl blk9 bhG (lbT lb sz') (lo_final lb buf p nd) bufv p nd v6 v7) as X10. cbv zeta in X10. rewrite LhT in X10.
+    destruct (X10 Hpn 28%nat 0%nat m9 _ fuel eq_refl R9' Hf3) as (m10 & hblk10 & C10 & R10 & F10). clear X10.
+    (* the frame from the start of the append *)
+    pose proof (sframe_trans _ _ _ _ _ _ _ _ (sframe_trans _ _ _ _ _ _ _ _ (sframe_trans _ _ _ _ _ _ _ _ (sframe_trans _ _ _ _ _ _ _ _ (sframe_trans _ _ _ _ _ _ _ _ F5 F6) F7) F8) F9) F10) as FA.
+    rewrite ent_blocks_R9 in FA by exact HlenG. cbn [ptr_block app] in FA. destruct FA as (FA1 & FA2 & _).
+    assert (KG : forall b, (b < length mG)%nat -> b <> bl -> b <> bhG -> nth_error m10 b = nth_error mG b).
+    { intros b Hb0 N1 N2. rewrite FA2; [apply KE; assumption|rewrite LmE; exact Hb0|exact N1|exact N2|intros []]. }
+    exists m10, blk9, bhG, hblk10. split; [|split; [rewrite (lbuf_opt_push lb buf p nd Rz); exact R10|]].
+    - rewrite callx_S. cbn [nth_error cprog F_lbuf_opt cf_lbuf_opt fn_nparams fn_nlocals length Nat.eqb Nat.sub repeat app]. fold cx.
+      match goal with |- context [exec cx fuel ?b ?st] => change (exec cx fuel b st) with (exec cx fuel opt_body st) end.
+      rewrite opt_body_eq, exec_seq, C1, exec_seq, C2, exec_seq, C3, opt_rest3_eq. fold restF. rewrite C4. unfold restF. rewrite C5, C6, C7, C8, C9.
+      unfold sK, opt_t11, opt_t10, opt_t9, opt_t8, opt_t7, opt_t6, opt_t5, opt_t4, opt_t3, opt_t2, opt_t1, opt_rest3, opt_rest2, opt_rest1, opt_body; cbn [fn_body cf_lbuf_opt].
+      rewrite exec_seq. xstep.
+      unfold sK_loop, sK, opt_t11, opt_t10, opt_t9, opt_t8, opt_t7, opt_t6, opt_t5, opt_t4, opt_t3, opt_t2, opt_t1, opt_rest3, opt_rest2, opt_rest1, opt_body in C10; cbn [fn_body cf_lbuf_opt] in C10.
+      change (Z.of_nat 0) with 0 in C10. rewrite C10. reflexivity.
+    - split; [lia|]. split; [|split].
+      + intros b Hb0 Nin. unfold owned in Nin. fold n in Nin.
+        assert (N1 : b <> bl) by (intro X; apply Nin; left; auto). assert (N2 : b <> bh) by (intro X; apply Nin; right; left; auto).
+        assert (N3 : ~ In b D) by (intro X; apply Nin; right; right; rewrite (log_blocks_split hblk u n Ru); apply in_or_app; right; exact X).
+        rewrite KG; [|lia|exact N1|destruct HbhG as [->|Y]; [exact N2|lia]].
+        rewrite HkG by (try lia; assumption). unfold m1. apply free_blocks_other; assumption.
+      + intros b Hb0. assert (B1 : (b < length m)%nat) by (apply LD; exact Hb0).
+        assert (N1 : b <> bl) by (intro X; subst; contradiction). assert (N2 : b <> bh) by (intro X; subst; contradiction).
+        rewrite KG; [|lia|exact N1|destruct HbhG as [->|Y]; [exact N2|lia]].
+        rewrite HkG by (try lia; assumption). unfold m1. apply free_blocks_in; assumption.
+      + destruct (Nat.eq_dec bhG bh) as [->|Nb]; [left; reflexivity|]. right. destruct HbhG as [X|X]; [contradiction|]. split; [lia|].
+        rewrite KG; [apply HfreeG; exact Nb|lia|congruence|congruence].
+  Qed.
 End Opt.
